@@ -515,16 +515,20 @@ def r15(e: Engine, rep: Report, K: Kinds, rule: str):
         where = ictx.func.qname
         rep.functions.add(where)
         n_ops = 0
+        seen_ops = set()
         for n in ig.nodes:
             if iflow.IN.get(n.id) is None:
                 continue
             exprs = []
-            if n.kind == 'stmt':
+            if n.kind == 'stmt' and not isinstance(
+                    n.ast, (ast.FunctionDef, ast.AsyncFunctionDef,
+                            ast.ClassDef)):
                 exprs = [x for x in ast.walk(n.ast)
                          if isinstance(x, ast.BinOp)]
             for x in exprs:
-                if not isinstance(x.op, ast.Add):
+                if not isinstance(x.op, ast.Add) or id(x) in seen_ops:
                     continue
+                seen_ops.add(id(x))
                 lk = iflow.eval_at(n, x.left)
                 rk = iflow.eval_at(n, x.right)
                 if not ({'Set'} & (set(lk) | set(rk))):
@@ -533,7 +537,8 @@ def r15(e: Engine, rep: Report, K: Kinds, rule: str):
                 rep.evaluations += 1
                 bad = lk == ks('Set') or rk == ks('Set')
                 rep.check(not bad, rule, where,
-                          '`%s` with the index argument' % ast.unparse(x),
+                          'stored marks concatenated (+) with the index '
+                          'argument',
                           'the queue passes a %s; `%s` evaluates %s + %s, '
                           'which raises TypeError: the delivered marks are '
                           'never persisted on this backend' % (
